@@ -11,6 +11,8 @@
 (* its first sendto) and waits for "run"; probed = no thread was pending after the      *)
 (* operation, so a broadcast request was sent and answers holds the replies;            *)
 (* cfg = schemes, up = indices of the interfaces scripted to come up at this (re)start, *)
+(* unicast = per socket still bound in the SO_REUSEPORT group the answers <<g, i>> to a  *)
+(* request delivered to that socket only;                                               *)
 (* listening = configured indices of the TCP ports really bound now (0: a port that is  *)
 (* not configured), answers / announce = <<g, i>> per message: g = generation of the    *)
 (* identity it carries, i = configured index of the port it names (0: none);            *)
@@ -35,6 +37,11 @@ Clauses(e, c, u, ph, g, cr) ==
       <<e.ev \o ".one_answer_per_port", Len(e.answers) = Cardinality(Pairs(e.answers))>>,
       <<e.ev \o ".answers", e.probed => IF ph = "closing" THEN Pairs(e.answers) \subseteq Demanded(c, u, ph, g)
                                                     ELSE Pairs(e.answers) = Demanded(c, u, ph, g)>>,
+      \* a unicast request reaches ONE socket of the reuse-port group - whichever: it must be answered all the same
+      <<e.ev \o ".every_request_answered", \A k \in 1 .. Len(e.unicast) :
+            /\ Len(e.unicast[k]) = Cardinality(Pairs(e.unicast[k]))
+            /\ IF ph = "closing" THEN Pairs(e.unicast[k]) \subseteq Demanded(c, u, ph, g)
+               ELSE Pairs(e.unicast[k]) = Demanded(c, u, ph, g)>>,
       <<e.ev \o ".announce", e.ev \in {"shutdown", "stop_responder", "close_iface"} \/
             (Pairs(e.announce) \subseteq Demanded(c, u, ph, g) /\ Len(e.announce) = Cardinality(Pairs(e.announce)))>> >>
 FirstFalse(cl) == LET bad == {j \in 1 .. Len(cl) : ~ cl[j][2]}
